@@ -675,6 +675,7 @@ def _scan_lines(state: TokenizerState, readline: Callable[[], str]) -> Iterator[
         state.move_next_line(readline)
 
         if state.end_progs:
+            state.continued = False  # a backslash-newline inside a replacement field joined the previous line only
             yield from handle_end_progs(state)
 
         elif state.parenlev == 0 and not state.continued:  # new statement
